@@ -360,7 +360,14 @@ func checkFreshState(c *core.Ctx, r *core.Report, mk *ssa.Function) {
 	key := core.FuncName(mk) + "#fresh-T"
 	for _, ret := range an.Returns(mk) {
 		al, ok := an.Strip(ret.Results[0]).(*ssa.Alloc)
-		if !ok || !al.Heap {
+		if _, byValue := ret.Results[0].Type().Underlying().(*types.Struct); byValue {
+			// a state handed out by value is a new value by construction: the literal built here
+			al = an.StructLiteralOf(ret.Results[0])
+			ok = al != nil
+		} else if ok && !al.Heap {
+			ok = false
+		}
+		if !ok {
 			r.Violation(key, an.Pos(c, ret), "the state returned is %s, not a new allocation", an.D().Of(ret.Results[0]))
 			continue
 		}
@@ -450,7 +457,12 @@ func freshStateRule(c *core.Ctx, r *core.Report, withCounts bool) {
 				return
 			}
 			fld := an.FieldOfAddr(st.Addr)
-			if fld == nil || !strings.Contains(types.TypeString(fld.Type(), nil), "[]*") || !strings.Contains(types.TypeString(fld.Type(), nil), "iterationState") {
+			if fld == nil {
+				return
+			}
+			// a slice of per-worker states (held by pointer or by value)
+			sl, isSl := fld.Type().Underlying().(*types.Slice)
+			if !isSl || !an.IsNamed(sl.Elem(), workersPkg, "iterationState") {
 				return
 			}
 			n++
@@ -479,8 +491,18 @@ func freshStateRule(c *core.Ctx, r *core.Report, withCounts bool) {
 						}
 					}
 				}
-				if !same {
+				hasIntField := false
+				if pst, isSt := lit.Type().(*types.Pointer).Elem().Underlying().(*types.Struct); isSt {
+					for i := 0; i < pst.NumFields(); i++ {
+						if b, isB := pst.Field(i).Type().Underlying().(*types.Basic); isB && b.Kind() == types.Int {
+							hasIntField = true
+						}
+					}
+				}
+				if !same && hasIntField {
 					r.Undecided(key+"#numWorkers", an.Pos(c, in), "no int field of the pool literal holds the worker count")
+				} else if !same {
+					r.Exists(key+"#numWorkers", an.Pos(c, in), "the pool keeps no separate worker count: the number of workers is the length of the state slice")
 				}
 			}
 			if _, isParam := an.Strip(nArg).(*ssa.Parameter); !isParam {
